@@ -1,4 +1,12 @@
 /-
+C04, Layer B.  Two generations of results live here:
+
+(1) `layerB_samples_partial` (older): per string, three sample start states per entry, kernel evaluation; also covers the
+    SGR / hyperlink over-approximation and sample cursor-style draw commands.
+(2) **the byte-level transport** (`db_mode_strings_known`, `modes_restored_bytes`, `resume_reapplies_bytes`): for ALL start
+    states of the reference emulator whose parser is in the ground state, and composed over whole histories with
+    `feed_append` — see the section "the byte-level theorems" at the end of this file and `Lemmas/ModesB{Emu,Seq,Sim}.lean`.
+
 C04, Layer B: the strings behind the mode model's capabilities, for every ECMA-family entry of the regenerated
 database, do on the reference emulator (`Tcell.Spec.Ecma48`) what Layer A (`Tcell.ModesA.capEffect` / `cmdEffect`)
 says they do on the abstract registers — by kernel evaluation.  Also: every such entry satisfies the pairing facts
@@ -8,6 +16,7 @@ import Tcell.Props.C04
 import Tcell.Model.Render
 import Tcell.Spec.Ecma48
 import Tcell.Gen.TerminfoDB
+import Tcell.Lemmas.ModesBSim
 namespace Tcell.Props.C04
 open Tcell Tcell.Modes Tcell.ModesA Tcell.Spec.Ecma48
 
@@ -131,8 +140,288 @@ set_option maxRecDepth 1000000 in
     abstract registers (`penSet` / `link` may over-approximate).
     What is missing for the full transport `emu (bytes history) = applyEvs (events history)`: the start states are three
     samples rather than all terminals (the strings' effects are state-independent register assignments except the title
-    stack and `?47`, which the samples exercise in both states); the composition over histories is validated, not
-    proved, by the engine `modes` (byte-exact tie + the emulator judging the implementation's own bytes). -/
+    stack and `?47`, which the samples exercise in both states).  SUPERSEDED for the mode registers by
+    `db_mode_strings_known` + `modes_restored_bytes` / `resume_reapplies_bytes` below (all start states, whole histories);
+    kept because it is still the only Layer-B statement about SGR state / hyperlink (`penSet`, `link`) and about the
+    cursor-colour draw commands. -/
 theorem layerB_samples_partial : (Gen.db.filter isEcma).all layerBEntry = true := by decide +kernel
+
+/-! ## the byte-level theorems: Layer A transported to the reference emulator, all start states, whole histories -/
+
+open Tcell.ModesB Tcell.Spec.Ecma48.Term
+
+/-- membership of an entry in the proved class (`ModesB.Known`): every fixed string the mode path can write for the entry
+    (after TPuts removed its padding) is a list of tokens with proved effects (`ModesB.Tok.sim`), and the total effect on
+    the emulator's registers is exactly Layer A's meaning of the capability -/
+def ModeStringsKnown (e : Terminfo) : Bool := Known (rcOf e) (adOf e) (selOf (rcOf e))
+
+set_option maxRecDepth 1000000 in
+/-- **ALL 45 ECMA-family entries of the regenerated database are in the proved class** (kernel evaluation; no entry is
+    left out: the distinct strings are `CSI ? n h/l` for n ∈ {1, 4, 7, 12, 25, 47, 1000, 1002, 1003, 1004, 1006, 1049, 2004},
+    `ESC =`/`ESC >`, `ESC 7`/`ESC 8`, `CSI 22;0;0 t`/`CSI 23;0;0 t`/`CSI 22;2 t`/`CSI 23;2 t`, `CSI n SP q`, `OSC 112 BEL`,
+    `OSC 8 ; ; ST`, `ESC ( B`, `ESC ) 0`, SI, FF, BEL, `CSI ? n c`, `CSI " q`, `CSI 34 h`, `CSI r` and the plain
+    SGR / CUP / ED forms) -/
+theorem db_mode_strings_known : (Gen.db.filter isEcma).all ModeStringsKnown = true := by decide +kernel
+
+/-- the events of a history, in order, from a state of the screen -/
+def evsOf (cf : ModeCfg) (v : Bool) : MState → List MOp → List Ev
+  | _, [] => []
+  | st, op :: ops => (stepV v cf st op).2 ++ evsOf cf v (stepV v cf st op).1 ops
+
+section
+variable (ad : AD) (v a : Bool) (rw : Rune → Int) (payload : Rune → List Rune → List Nat) (corner : Bool)
+
+/-- the terminal registers of `execAll` are the events of the history applied to the initial registers -/
+theorem execAll_r : ∀ (ops : List MOp) (wd : World),
+    (execAll ad v a rw payload corner wd ops).r = applyEvs ad (evsOf (mkCf ad rw payload corner a) v wd.st ops) wd.r := by
+  intro ops
+  induction ops with
+  | nil => intro wd; rfl
+  | cons op l ih =>
+    intro wd
+    show (execAll ad v a rw payload corner (execOp ad v a rw payload corner wd op) l).r = _
+    rw [ih]
+    simp [execOp, evsOf, applyEvs, List.foldl_append]
+
+theorem evsOf_ok : ∀ (ops : List MOp) (st : MState), (evsOf (mkCf ad rw payload corner a) v st ops).all (putOk ad) = true := by
+  intro ops
+  induction ops with
+  | nil => intro st; rfl
+  | cons op l ih =>
+    intro st
+    simp only [evsOf, List.all_append, Bool.and_eq_true]
+    exact ⟨step_ok ad v a rw payload corner st op, ih _⟩
+
+/-- everything the screen writes from the call of Init to the end of the history `ops` (Init is `engage` on the fresh
+    screen — the op `.resume` — plus one WindowSize call that writes nothing) -/
+def histEvs (w h : Int) (ops : List MOp) : List Ev :=
+  evsOf (mkCf ad rw payload corner a) v (Modes.fresh w h) (.resume :: ops)
+
+/-- … as bytes on the wire -/
+def histBytes (rc : RenderCfg) (w h : Int) (ops : List MOp) : Bytes :=
+  (histEvs ad v a rw payload corner w h ops).flatMap (evBytes rc)
+
+/-- NAMED HYPOTHESIS about the draw path (not proved here): every command of every draw frame of the history does on the
+    emulator's mode registers what Layer A says (`ModesB.CmdOk`: nothing for cursor addressing, style changes, cell
+    contents, clear; cursor visibility / shape / colour for the cursor commands) and returns the parser to the ground
+    state.  `ModesB.cmdOk_of_eff` discharges it for any concrete command whose bytes tokenize (see the example below);
+    in general it is what C01B's `CapsFx` / C09's `output_wellformed_partial` are about, validated on every run by the
+    engine `modes` (emulator registers after every frame). -/
+def FramesOk (rc : RenderCfg) (sel : Sel) (evs : List Ev) : Prop :=
+  ∀ cmds, Ev.frame cmds ∈ evs → ∀ c ∈ cmds, CmdOk rc ad sel c
+
+/-- every title written is printable ASCII without `$` (otherwise the title bytes themselves could be control sequences:
+    `SetTitle("\a\x1b[?1000h")` does switch the mouse on — outside the property) -/
+def TitlesPlain (evs : List Ev) : Prop := ∀ t, Ev.put (.setTitle t) ∈ evs → PlainTitle t
+
+theorem hist_evSim (rc : RenderCfg) (sel : Sel) (hk : Known rc ad sel = true) (evs : List Ev)
+    (hok : evs.all (putOk ad) = true) (hfr : FramesOk ad rc sel evs) (hti : TitlesPlain evs) :
+    ∀ e ∈ evs, EvSim rc ad sel e := by
+  intro e he
+  have hp := List.all_eq_true.mp hok e he
+  cases e with
+  | call c => exact evSim_call rc ad sel c
+  | frame cmds => exact evSim_frame rc ad sel cmds (hfr cmds he)
+  | put k =>
+    simp only [putOk, Bool.and_eq_true] at hp
+    by_cases ht : ∃ t, k = .setTitle t
+    · obtain ⟨t, rfl⟩ := ht
+      exact evSim_setTitle rc ad sel hk (by simpa [emit] using hp.1) t (hti t he)
+    · exact evSim_put rc ad sel hk k (fun t h => ht ⟨t, h⟩) hp.2 hp.1
+
+/-- **the transport**: for a description in the proved class, from ANY emulator state `t0` with the parser in the ground
+    state and registers `m0` satisfying the keypad invariant, the emulator fed ALL bytes of the history has exactly the
+    registers Layer A computes (SGR state and hyperlink apart) -/
+theorem hist_transport (rc : RenderCfg) (sel : Sel) (hk : Known rc ad sel = true) (w h : Int) (ops : List MOp)
+    (hfr : FramesOk ad rc sel (histEvs ad v a rw payload corner w h ops))
+    (hti : TitlesPlain (histEvs ad v a rw payload corner w h ops))
+    (t0 : Term) (hst : t0.st = .ground) (r0 : Regs) (hR : absOf (mr t0) = eraseP r0) (hj : J sel (mr t0)) :
+    (t0.feed (histBytes ad v a rw payload corner rc w h ops)).st = .ground ∧
+    absOf (mr (t0.feed (histBytes ad v a rw payload corner rc w h ops))) =
+      eraseP (applyEvs ad (histEvs ad v a rw payload corner w h ops) r0) ∧
+    J sel (mr (t0.feed (histBytes ad v a rw payload corner rc w h ops))) :=
+  evs_sim rc ad sel _ (hist_evSim ad rc sel hk _ (evsOf_ok ad v a rw payload corner _ _) hfr hti) t0 r0 hst hR hj
+
+theorem map_cps_inj : ∀ (x y : List String), x.map cps = y.map cps → x = y
+  | [], [], _ => rfl
+  | [], _ :: _, h => by simp at h
+  | _ :: _, [], h => by simp at h
+  | p :: ps, q :: qs, h => by
+    simp only [List.map_cons, List.cons.injEq] at h
+    rw [cps_inj h.1, map_cps_inj ps qs h.2]
+
+/-- the emulator's registers in their default state, showing `ttl` with saved titles `stk` -/
+def mr0 (ttl : String) (stk : List String) : MR := { title := ttl, tstack := stk }
+
+theorem absOf_mr0 (ttl : String) (stk : List String) :
+    absOf (mr0 ttl stk) = eraseP (world0 0 0 (cps ttl) (stk.map cps)).r := rfl
+
+theorem J_mr0 (sel : Sel) (ttl : String) (stk : List String) : J sel (mr0 ttl stk) := ⟨fun _ => rfl, fun _ => rfl, fun _ => rfl⟩
+
+/-- **C04, modes restored — at the byte level.**  For every terminal description in the proved class (all 45 ECMA-family
+    entries: `db_mode_strings_known`, with `db_paired`), TCELL_ALTSCREEN either way, every screen size and every history
+    `ops` (as in `modes_restored`: any calls in any order, no Resume after Fini) ending in Suspend or Fini:
+    take ANY state `t0` of the reference emulator whose parser is in the ground state and whose mode registers are the
+    defaults (whatever its grid, cursor, pen, saved cursor, charsets, title `ttl` and title stack `stk`), and feed it ALL the
+    bytes the model writes from Init to the end of that last call (`histBytes`; the model is byte-exact with tscreen.go by
+    the engine `modes`).  Then the parser is in the ground state again and the emulator is off the alternate screen, the
+    cursor is visible with default shape and no colour set, keypad-application / cursor-key-application / smooth-scroll
+    modes are off, mouse modes 1000/1002/1003/1006, bracketed paste 2004 and focus reporting 1004 are off, auto-margin is
+    on, the title stack is `stk` again, and if a title was saved the title shown is Layer A's ghost title.
+    Hypotheses beyond Layer A's: `FramesOk` (named hypothesis on the draw frames) and `TitlesPlain`.  NOT transported:
+    SGR state and hyperlink (Layer A's `penSet` / `link`; `rmcup`'s cursor restore brings back a saved pen). -/
+theorem modes_restored_bytes (rc : RenderCfg) (sel : Sel) (hk : Known rc ad sel = true) (hp : Paired ad)
+    (w h : Int) (ops : List MOp) (last : MOp) (hl : last = .suspend ∨ last = .fini) (hwf : wfFrom false (ops ++ [last]) = true)
+    (hfr : FramesOk ad rc sel (histEvs ad v a rw payload corner w h (ops ++ [last])))
+    (hti : TitlesPlain (histEvs ad v a rw payload corner w h (ops ++ [last])))
+    (t0 : Term) (hst : t0.st = .ground) (ttl : String) (stk : List String) (hm : mr t0 = mr0 ttl stk) :
+    let m1 := mr (t0.feed (histBytes ad v a rw payload corner rc w h (ops ++ [last])))
+    (t0.feed (histBytes ad v a rw payload corner rc w h (ops ++ [last]))).st = .ground ∧
+    m1.alt = false ∧ m1.cv = true ∧ m1.shape = 0 ∧ m1.color = none ∧ m1.colorName = "" ∧
+    m1.kpApp = false ∧ m1.ckApp = false ∧ m1.smooth = false ∧
+    m1.m1000 = false ∧ m1.m1002 = false ∧ m1.m1003 = false ∧ m1.m1006 = false ∧ m1.paste = false ∧ m1.focus = false ∧
+    m1.am = true ∧ m1.tstack = stk ∧
+    (0 < nSaved ad a → cps m1.title =
+      (execAll ad v a rw payload corner (world0 w h (cps ttl) (stk.map cps)) (.resume :: (ops ++ [last]))).g) := by
+  intro m1
+  have hA := modes_restored ad v a rw payload corner hp w h (cps ttl) (stk.map cps) ops last hl hwf
+  rw [execAll_r] at hA
+  obtain ⟨s1, s2, _⟩ := hist_transport ad v a rw payload corner rc sel hk w h (ops ++ [last]) hfr hti t0 hst
+    (world0 w h (cps ttl) (stk.map cps)).r (by rw [hm]; rfl) (by rw [hm]; exact J_mr0 sel ttl stk)
+  have hE : absOf m1 = eraseP (applyEvs ad (histEvs ad v a rw payload corner w h (ops ++ [last]))
+      (world0 w h (cps ttl) (stk.map cps)).r) := s2
+  have hA' : Idle ad v a (applyEvs ad (histEvs ad v a rw payload corner w h (ops ++ [last])) (world0 w h (cps ttl) (stk.map cps)).r)
+      (execAll ad v a rw payload corner (world0 w h (cps ttl) (stk.map cps)) (.resume :: (ops ++ [last]))).g (stk.map cps) := hA
+  generalize applyEvs ad (histEvs ad v a rw payload corner w h (ops ++ [last])) (world0 w h (cps ttl) (stk.map cps)).r = rA at hE hA'
+  have htint : (m1.color.isSome || !m1.colorName.isEmpty) = false := (congrArg Regs.tinted hE).trans hA'.tinted
+  have hkp : (m1.kpApp || m1.ckApp || m1.smooth) = false := (congrArg Regs.keypad hE).trans hA'.keypad
+  have hstk : m1.tstack.map cps = stk.map cps := (congrArg Regs.tstack hE).trans hA'.tstack
+  simp only [Bool.or_eq_false_iff, Bool.not_eq_false', Option.isSome_eq_false_iff, Option.isNone_iff_eq_none] at htint hkp
+  refine ⟨s1, (congrArg Regs.alt hE).trans hA'.alt, (congrArg Regs.cv hE).trans hA'.cv, (congrArg Regs.shape hE).trans hA'.shape,
+    htint.1, by simpa using htint.2, hkp.1.1, hkp.1.2, hkp.2,
+    (congrArg Regs.m1000 hE).trans hA'.m1000, (congrArg Regs.m1002 hE).trans hA'.m1002, (congrArg Regs.m1003 hE).trans hA'.m1003,
+    (congrArg Regs.m1006 hE).trans hA'.m1006, (congrArg Regs.paste hE).trans hA'.paste, (congrArg Regs.focus hE).trans hA'.focus,
+    (congrArg Regs.am hE).trans hA'.am, map_cps_inj _ _ hstk, fun hn => (congrArg Regs.title hE).trans (hA'.title hn)⟩
+
+/-- **C04, Resume re-applies — at the byte level.**  Same setting as `modes_restored_bytes`, for a history `ops` after Init
+    that leaves the screen suspended: feed the emulator (any ground state with default registers) ALL bytes from Init to
+    the end of the following `Resume`.  Then mouse modes 1000/1002/1003/1006, bracketed paste and focus reporting are on in
+    the emulator EXACTLY if the application's last request — wherever in the history, also while suspended — enabled
+    them (and the description has the string); the alternate screen is shown iff TCELL_ALTSCREEN allows it and the description
+    has smcup, the cursor is hidden, auto-margin is off, keypad mode is on (where the description can), and a requested
+    plain title is the title shown. -/
+theorem resume_reapplies_bytes (rc : RenderCfg) (sel : Sel) (hk : Known rc ad sel = true) (hp : Paired ad)
+    (w h : Int) (ops : List MOp) (hwf : wfFrom false ops = true)
+    (hsusp : (execAll ad v a rw payload corner (world0 w h [] []) (.resume :: ops)).st.running = false)
+    (hfr : FramesOk ad rc sel (histEvs ad v a rw payload corner w h (ops ++ [.resume])))
+    (hti : TitlesPlain (histEvs ad v a rw payload corner w h (ops ++ [.resume])))
+    (t0 : Term) (hst : t0.st = .ground) (ttl : String) (stk : List String) (hm : mr t0 = mr0 ttl stk) :
+    let m1 := mr (t0.feed (histBytes ad v a rw payload corner rc w h (ops ++ [.resume])))
+    let q := reqAfter {} ops
+    (t0.feed (histBytes ad v a rw payload corner rc w h (ops ++ [.resume]))).st = .ground ∧
+    m1.m1000 = (ad.mouse && decide (q.mouseFlags % 2 = 1)) ∧ m1.m1002 = (ad.mouse && decide (q.mouseFlags / 2 % 2 = 1)) ∧
+    m1.m1003 = (ad.mouse && decide (q.mouseFlags / 4 % 2 = 1)) ∧ m1.m1006 = (ad.mouse && decide (q.mouseFlags % 8 ≠ 0)) ∧
+    m1.paste = (q.paste && ad.pasteOn) ∧ m1.focus = (q.focus && ad.focusOn) ∧
+    m1.alt = (a && ad.enterCA) ∧ (m1.kpApp || m1.ckApp || m1.smooth) = ad.enterKeypad ∧ m1.cv = !ad.hideCursor ∧
+    m1.am = !ad.disableAM ∧ (q.title ≠ [] ∧ ad.setTitle = true → cps m1.title = q.title) := by
+  intro m1 q
+  have hrun : ∀ t s, (execAll ad v a rw payload corner (world0 w h t s) (.resume :: ops)).st =
+      (execAll ad v a rw payload corner (world0 w h [] []) (.resume :: ops)).st := by
+    intro t s
+    suffices H : ∀ (l : List MOp) (w1 w2 : World), w1.st = w2.st →
+        (execAll ad v a rw payload corner w1 l).st = (execAll ad v a rw payload corner w2 l).st from H _ _ _ rfl
+    intro l
+    induction l with
+    | nil => intro w1 w2 h; exact h
+    | cons op r ih =>
+      intro w1 w2 h
+      exact ih (execOp ad v a rw payload corner w1 op) (execOp ad v a rw payload corner w2 op) (by simp [execOp, h])
+  have hA := resume_reapplies ad v a rw payload corner hp w h (cps ttl) (stk.map cps) ops hwf (by rw [hrun]; exact hsusp)
+  simp only at hA
+  rw [execAll_r] at hA
+  obtain ⟨s1, s2, _⟩ := hist_transport ad v a rw payload corner rc sel hk w h (ops ++ [.resume]) hfr hti t0 hst
+    (world0 w h (cps ttl) (stk.map cps)).r (by rw [hm]; rfl) (by rw [hm]; exact J_mr0 sel ttl stk)
+  have hE : absOf m1 = eraseP (applyEvs ad (histEvs ad v a rw payload corner w h (ops ++ [.resume]))
+      (world0 w h (cps ttl) (stk.map cps)).r) := s2
+  have hrA : applyEvs ad (evsOf (mkCf ad rw payload corner a) v (world0 w h (cps ttl) (stk.map cps)).st
+      (.resume :: (ops ++ [.resume]))) (world0 w h (cps ttl) (stk.map cps)).r =
+      applyEvs ad (histEvs ad v a rw payload corner w h (ops ++ [.resume])) (world0 w h (cps ttl) (stk.map cps)).r := rfl
+  rw [hrA] at hA
+  generalize applyEvs ad (histEvs ad v a rw payload corner w h (ops ++ [.resume])) (world0 w h (cps ttl) (stk.map cps)).r = rA at hE hA
+  obtain ⟨a1, a2, a3, a4, a5, a6, a7, a8, a9, a10, a11⟩ := hA
+  exact ⟨s1, (congrArg Regs.m1000 hE).trans a1, (congrArg Regs.m1002 hE).trans a2, (congrArg Regs.m1003 hE).trans a3,
+    (congrArg Regs.m1006 hE).trans a4, (congrArg Regs.paste hE).trans a5, (congrArg Regs.focus hE).trans a6,
+    (congrArg Regs.alt hE).trans a7, (congrArg Regs.keypad hE).trans a8, (congrArg Regs.cv hE).trans a9,
+    (congrArg Regs.am hE).trans a10, fun hq => (congrArg Regs.title hE).trans (a11 hq)⟩
+
+end
+
+/-! ### decidable certificates for the two hypotheses, and non-vacuity on xterm-256color -/
+
+def titlesCert (evs : List Ev) : Bool :=
+  evs.all fun e => match e with
+    | .put (.setTitle t) => t.all fun b => decide (0x20 ≤ b) && decide (b < 0x7f) && b != 36
+    | _ => true
+
+theorem titlesPlain_of_cert (evs : List Ev) (h : titlesCert evs = true) : TitlesPlain evs := by
+  intro t ht b hb
+  have h1 := List.all_eq_true.mp h _ ht
+  have h2 := List.all_eq_true.mp h1 b hb
+  simp only [Bool.and_eq_true, decide_eq_true_eq, bne_iff_ne, ne_eq] at h2
+  exact ⟨h2.1.1, h2.1.2, h2.2⟩
+
+/-- `FramesOk` for a concrete history by evaluation (`ModesB.framesCert`: the bytes of every command of every frame
+    tokenize with the effect Layer A expects) -/
+theorem framesOk_of_cert' (ad : AD) (rc : RenderCfg) (sel : Sel) (evs : List Ev) (h : framesCert rc ad evs = true) :
+    FramesOk ad rc sel evs := framesOk_of_cert rc ad sel evs h
+
+def xterm256 : Terminfo := (Gen.db.find? (fun e => e.name == "xterm-256color")).getD {}
+
+/-- mouse (buttons + motion), paste, focus, a title, a steady-bar cursor, a bold cell, Show; Suspend; mouse requests
+    changed while suspended; Resume; Sync -/
+def histB : List MOp :=
+  [.enableMouse 5, .enablePaste, .enableFocus, .setTitle [116], .scr (.setCursorStyle 6 0),
+   .scr (.showCursor 0 0), .scr (.setContent 0 0 120 [] { attrs := 1 }), .scr .show, .suspend, .disableMouse, .enableMouse 2,
+   .resume, .scr .sync]
+
+set_option maxRecDepth 1000000 in
+theorem xterm256_known : Known (rcOf xterm256) (adOf xterm256) (selOf (rcOf xterm256)) = true := by decide +kernel
+set_option maxRecDepth 100000 in
+theorem xterm256_paired : Paired (adOf xterm256) := paired_of_pairedB _ (by decide +kernel)
+set_option maxRecDepth 1000000 in
+theorem histB_frames : framesCert (rcOf xterm256) (adOf xterm256)
+    (histEvs (adOf xterm256) true true rw1 pay1 false 2 1 (histB ++ [.fini])) = true := by decide +kernel
+set_option maxRecDepth 1000000 in
+theorem histB_titles : titlesCert (histEvs (adOf xterm256) true true rw1 pay1 false 2 1 (histB ++ [.fini])) = true := by
+  decide +kernel
+
+/-- the hypotheses of `modes_restored_bytes` are satisfiable on xterm-256color (both named hypotheses discharged by
+    evaluation), for EVERY emulator start state with default registers -/
+example (t0 : Term) (hst : t0.st = .ground) (ttl : String) (stk : List String) (hm : mr t0 = mr0 ttl stk) :
+    let m1 := mr (t0.feed (histBytes (adOf xterm256) true true rw1 pay1 false (rcOf xterm256) 2 1 (histB ++ [.fini])))
+    m1.alt = false ∧ m1.cv = true ∧ m1.shape = 0 ∧ m1.kpApp = false ∧ m1.ckApp = false ∧ m1.m1000 = false ∧ m1.m1002 = false ∧
+    m1.m1003 = false ∧ m1.m1006 = false ∧ m1.paste = false ∧ m1.focus = false ∧ m1.am = true ∧ m1.tstack = stk := by
+  have h := modes_restored_bytes (adOf xterm256) true true rw1 pay1 false (rcOf xterm256) (selOf (rcOf xterm256)) xterm256_known
+    xterm256_paired 2 1 histB .fini (Or.inr rfl) (by decide)
+    (framesOk_of_cert' _ _ _ _ histB_frames) (titlesPlain_of_cert _ histB_titles) t0 hst ttl stk hm
+  exact ⟨h.2.1, h.2.2.1, h.2.2.2.1, h.2.2.2.2.2.2.1, h.2.2.2.2.2.2.2.1, h.2.2.2.2.2.2.2.2.2.1, h.2.2.2.2.2.2.2.2.2.2.1,
+    h.2.2.2.2.2.2.2.2.2.2.2.1, h.2.2.2.2.2.2.2.2.2.2.2.2.1, h.2.2.2.2.2.2.2.2.2.2.2.2.2.1, h.2.2.2.2.2.2.2.2.2.2.2.2.2.2.1,
+    h.2.2.2.2.2.2.2.2.2.2.2.2.2.2.2.1, h.2.2.2.2.2.2.2.2.2.2.2.2.2.2.2.2.1⟩
+
+/-- the bytes up to and including the first Show / up to and including the Resume, on a concrete 2×1 emulator -/
+def tMid : Term := (Term.init { w := 2, h := 1 }).feed (histBytes (adOf xterm256) true true rw1 pay1 false (rcOf xterm256) 2 1 (histB.take 8))
+def tRes : Term := (Term.init { w := 2, h := 1 }).feed (histBytes (adOf xterm256) true true rw1 pay1 false (rcOf xterm256) 2 1 (histB.take 12))
+
+set_option maxRecDepth 1000000 in
+/-- … and not trivially so: in the middle of that history the modes really are on in the emulator (alternate screen,
+    mouse 1000/1003/1006, paste, focus, keypad + cursor keys application, auto-margin off, steady-bar cursor, two titles
+    saved); after the Resume the mouse mode requested *while suspended* (drag = 1002) is on, 1000/1003 are not -/
+example :
+    (mr tMid).alt = true ∧ (mr tMid).m1000 = true ∧ (mr tMid).m1002 = false ∧ (mr tMid).m1003 = true ∧ (mr tMid).m1006 = true ∧
+    (mr tMid).paste = true ∧ (mr tMid).focus = true ∧ (mr tMid).kpApp = true ∧ (mr tMid).ckApp = true ∧ (mr tMid).am = false ∧
+    (mr tMid).shape = 6 ∧ (mr tMid).tstack.length = 2 ∧ tMid.st = .ground ∧
+    (mr tRes).alt = true ∧ (mr tRes).m1000 = false ∧ (mr tRes).m1002 = true ∧ (mr tRes).m1003 = false ∧ (mr tRes).m1006 = true ∧
+    (mr tRes).paste = true ∧ (mr tRes).focus = true := by
+  decide +kernel
 
 end Tcell.Props.C04
